@@ -238,6 +238,16 @@ where
     let lookup_polys =
         compute_all_lookup_polys(&witness, &deltas, prover_data, common_data, has_lookup);
 
+    #[cfg(feature = "verif_hooks")]
+    let lookup_polys = crate::verif_hooks::hook_lookup_polys(
+        lookup_polys,
+        &prover_data
+            .lookup_rows
+            .iter()
+            .map(|l| (l.last_lu_gate, l.first_lut_gate))
+            .collect::<Vec<_>>(),
+        common_data.num_lookup_polys,
+    );
     let zs_partial_products_lookups = if has_lookup {
         [zs_partial_products, lookup_polys].concat()
     } else {
